@@ -117,7 +117,11 @@ var (
 	//
 	//	logit("Invalid user %.100s from %.100s port %d",
 	//	    user, ssh_remote_ipaddr(ssh), ssh_remote_port(ssh));
-	invalidUserRE = regexp.MustCompile(`Invalid user (?P<Username>\S+) from (?P<Source>\S+) port (?P<Port>\d+)`)
+	//
+	// The user name is chosen by the client and may be empty or contain
+	// spaces and the words "from" and "port". The address and port that
+	// sshd appends are the last ones on the line.
+	invalidUserRE = regexp.MustCompile(`^Invalid user (?P<Username>.*) from (?P<Source>\S+) port (?P<Port>\d+)$`)
 
 	// notInAllowUsersRE matches the sshd AllowUsers violation message,
 	// allowing us to extract information about the login violation.
